@@ -44,8 +44,24 @@ func c15(tier string) []*explore.Scenario {
 		pick(c04(tier), "header-race"),
 		pick(c14(tier), "batch/k=16/rounds=2/d=0"),
 		pick(c12(tier), "interference"),
+		// scale: buffers full and overflowing, pools exhausted, many calls in flight
+		pick(c01(tier), "gated-proxy/k=64", "gated-demux/k=40", "gated-direct/k=32"),
+		pick(c16(tier), "burst/n=50", "many/clients=8", "dial-backlog/n=12"),
+		pick(c17(tier), "bad-peer/stuck-writer-flood"),
+		pick(c09(tier), "many/unary=40/streams=8/writefails=false"),
+		pick(c02(tier), "cap=64/Bidi/concurrent/echo/n=200", "cap=0/SStream/sendall/burst/n=1/m=200"),
+		pick(c10(tier), `set="UUUUUUUURRRRRRRR"/stop@16`, `set="UUUUUUUUUo"`),
+		pick(c18(tier), "delivery/keys=8/per=2"),
 	)
-	out := donors("C15", lists...)
+	all := donors("C15", lists...)
+	var out []*explore.Scenario
+	seen := map[string]bool{}
+	for _, sc := range all {
+		if !seen[sc.Name] {
+			seen[sc.Name] = true
+			out = append(out, sc)
+		}
+	}
 	out = append(out, c15ProxyAttach(), c15StreamThreeThreads())
 	for _, sc := range out {
 		sc.Race = true
